@@ -750,6 +750,88 @@ def emit_purity(findings):
     return "\n".join(L)
 
 
+def fallback_from_dump(T, d):
+    """When an item can no longer be PARSED (e.g. a match rewritten as an if-chain), finite-domain items are taken from the
+    extensional dump (the same functions executed through rustc on their whole domain). Returns the list of degraded keys."""
+    deg = []
+
+    def need(k):
+        return k not in T
+
+    for k in ["max_bytes", "version_information", "alignment", "missing_bits", "ecc_groups", "format_info", "data_codewords",
+              "percent_score", "log", "antilog"]:
+        if need(k) and k in d:
+            T[k] = d[k]
+            deg.append(k)
+    if (need("size_mul") or need("size_add")) and "version_size" in d:
+        vs = d["version_size"]
+        mul, add = vs[1] - vs[0], vs[0]
+        if all(vs[i] == i * mul + add for i in range(40)):
+            T["size_mul"], T["size_add"] = mul, add
+            deg.append("size")
+    if need("from_n") and "version_size" in d:
+        T["from_n"] = [[x, i] for i, x in enumerate(d["version_size"])]
+        deg.append("from_n")
+    if need("data_bits_mul") and "data_bits" in d and "data_codewords" in T:
+        T["data_bits_mul"] = d["data_bits"][0][0] // T["data_codewords"][0][0]
+        deg.append("data_bits_mul")
+    if need("cci") and "cci_bits" in d:
+        cci = []
+        for row in d["cci_bits"]:
+            guards = []
+            v = 39
+            while v > 0:
+                # start of the class that contains v
+                s0 = v
+                while s0 > 0 and row[s0 - 1] == row[v]:
+                    s0 -= 1
+                if s0 == 0:
+                    break
+                guards.append([s0, row[v]])
+                v = s0 - 1
+            cci.append([guards, row[0]])
+        T["cci"] = cci
+        deg.append("cci")
+    if need("polynomial_arms") and "polynomial" in d:
+        T["polynomial_arms"] = [[[[v, l]], d["polynomial"][l][v]] for l in range(4) for v in range(40)]
+        deg.append("polynomial_arms")
+    if need("version_get_arms") and "version_get_starts" in d and all(d.get("version_get_big_none", [False])):
+        arms = []
+        ok = True
+        for starts in d["version_get_starts"]:
+            a = []
+            for i, (lo, v) in enumerate(starts):
+                if v == 40:
+                    if i != len(starts) - 1:
+                        ok = False      # a gap: None in the middle cannot be expressed by contiguous arms alone
+                    continue
+                if i + 1 >= len(starts):
+                    ok = False          # still Some(..) at the end of the dumped range
+                    break
+                a.append([lo, starts[i + 1][0] - 1, v])
+            arms.append(a)
+        if ok:
+            T["version_get_arms"] = arms
+            deg.append("version_get_arms")
+    if (need("alnum_arms") or need("is_alnum_ranges")) and "alnum" in d:
+        al = d["alnum"]
+        T["alnum_arms"] = [[c, c, c, al[c][1]] for c in range(256) if al[c][1] >= 0]
+        rng = []
+        c = 0
+        while c < 256:
+            if al[c][0]:
+                e = c
+                while e + 1 < 256 and al[e + 1][0]:
+                    e += 1
+                rng.append([c, e])
+                c = e + 1
+            else:
+                c += 1
+        T["is_alnum_ranges"] = rng
+        deg.append("alnum")
+    return deg
+
+
 def main():
     T, S = {}, {}
     errors = []
@@ -759,17 +841,27 @@ def main():
             fn(arg)
         except (ParseError, ValueError, AttributeError, KeyError, IndexError) as e:
             errors.append("%s: %s: %s" % (fn.__name__, type(e).__name__, e))
+    degraded = []
+    if errors and "--dump" in sys.argv:
+        try:
+            d = json.load(open(sys.argv[sys.argv.index("--dump") + 1]))
+            degraded = fallback_from_dump(T, d)
+        except Exception as e:  # noqa
+            errors.append("fallback: %s" % e)
     findings = purity_scan()
     os.makedirs(WORK, exist_ok=True)
     with open(os.path.join(WORK, "tables_parsed.json"), "w") as f:
-        json.dump({"tables": T, "strings": S, "purity": findings, "errors": errors}, f, indent=0, sort_keys=True)
+        json.dump({"tables": T, "strings": S, "purity": findings, "errors": errors, "degraded": degraded}, f, indent=0, sort_keys=True)
+    if degraded:
+        print("TRANSLATOR-DEGRADED items taken from the extensional dump: %s" % ", ".join(degraded))
     if errors:
         for e in errors:
-            print("TRANSLATOR-ERROR " + e)
+            print("TRANSLATOR-%s %s" % ("NOTE" if degraded else "ERROR", e))
         # keep going only if the caller asks for it (check.py handles degradation)
         if "--allow-errors" not in sys.argv:
             return 2
     changed = []
+    # parse functions fill several keys each; a function that failed half-way may leave non-dump keys missing
     try:
         if write_if_changed(os.path.join(OUT, "Tables.v"), emit_tables(T)):
             changed.append("Tables.v")
